@@ -76,7 +76,15 @@ def run_case(G, eventless, fold, n, span, fold2=None, which="training-set", late
     msgs = []
     env, bearing = make(G, eventless, fold, n, span, fold2, latent_only, grown)
     reset_kw = {}
-    if relen is not None:
+    if relen is not None and relen < 0:
+        # the other way round: ONE episode asked with an explicit length (-relen decisions) through reset(episode_length=...),
+        # then plain resets - which are again episodes of the CONFIGURED n decisions (or the whole fold when none is configured)
+        with ChoiceSeam(pick=0):
+            try:
+                env.reset(fold=which, episode_length=-relen + 1)
+            except BaseException:
+                pass
+    elif relen is not None:
         # the environment is configured for n decisions and used once that way; every following episode asks for
         # `relen` decisions through reset(episode_length=...): the starts offered must be those of the NEW length
         with ChoiceSeam(pick=0):
@@ -262,6 +270,11 @@ def cases(tier):
                 for span in (None, 2):
                     for a, b in ((0, len(pts) - 1), (2, len(pts) - 3)):
                         yield (size, (), a, b, n1, span, ("relen", n2))
+                        if span is None:
+                            yield (size, (), a, b, n1, span, ("relen", -n2))
+        for n2 in range(1, size):
+            for a, b in ((0, len(pts) - 1), (2, len(pts) - 3)):
+                yield (size, (), a, b, None, None, ("relen", -n2))      # no length configured: a plain reset spans the whole fold again
     # a grid with several timesteps per second: fold bounds between two of them
     for size in (5, 6):
         pts = cut_points(grid_ms(size))
